@@ -403,9 +403,15 @@ Fixpoint cat_go (fuel : nat) (h : handle) (acc : list byte) : M (list byte) :=
     | (s1, (_, OutOfFuel)) => (s1, OutOfFuel)
     end
   end.
+(* Every successful round delivers at least STREAM_BUFFER_MIN bytes that exist in
+   the image (or the rest of the stream), so the number of rounds is bounded by
+   the image size as well as by the recorded length; the recorded length alone
+   must not be used as fuel: it comes from the file and may be any u64. *)
 Definition api_cat (p : list N) (maxbuf : N) : M (list byte) :=
   do h <- api_open_stream p maxbuf;
-  cat_go (S (S (S (N.to_nat (h_total h / STREAM_BUFFER_MIN))))) h [].
+  do s <- get;
+  let bound := N.min (h_total h) (lenN (img s) * slen s) in
+  cat_go (S (S (S (N.to_nat (bound / STREAM_BUFFER_MIN))))) h [].
 
 (* dropping a handle flushes it, ignoring errors *)
 Definition drop_handle (f : fstate) (i : N) : fstate :=
